@@ -8,6 +8,11 @@ PID = "C02"
 STACK = 2 * 1024 * 1024
 
 
+# all requests of one decode together: the unchanged tree stays below 200 bytes per byte of input (+ inflated data) on every input of every set
+TOTAL_BASE = 131072
+TOTAL_PER_BYTE = 600
+
+
 def bound(length, inflated):
     return 256 * (length + inflated) + 65536
 
@@ -92,6 +97,9 @@ def judge(v, inputs, obs, crashes, tag):
                 v.violation("decoder panicked on untrusted input", {**case, "panic": detail})
             elif largest > lim:
                 v.violation("allocation request out of proportion to the input", {**case, "largest_request": largest, "bound": lim})
+            elif total > TOTAL_BASE + TOTAL_PER_BYTE * (o["len"] + infl):
+                v.violation("memory requested in all is out of proportion to the input (more than %d bytes per input byte)" % TOTAL_PER_BYTE,
+                            {**case, "requested_in_all": total, "bound": TOTAL_BASE + TOTAL_PER_BYTE * (o["len"] + infl)})
 
 
 def run(tier, seed):
@@ -167,7 +175,18 @@ def run(tier, seed):
                     atomtext.append({"why": f"{fname} with a {len(ch.encode())}-byte character at offset {k}, {ctx}", "bytes": [131] + pre + ab + post})
                     if post:
                         atomtext.append({"why": f"{fname} with a {len(ch.encode())}-byte character at offset {k}, {ctx}, input ends after the atom", "bytes": [131] + pre + ab})
-    sets = [("grammar", attacks), ("nest", templates), ("compressed", comp), ("trunc", trunc), ("mut", muts), ("map_keys", keyed), ("atom_text", atomtext)]
+    # many node-local identifiers in one frame (each keeps its opaque bytes): lists of 300 and 3000 LOCAL_EXT pids / ports / references
+    many_local = []
+    node = [119, 3, 110, 64, 104]
+    for n_ids in (300, 3000):
+        for what, one in (("pids", lambda i: [121, 9, 8, 7, 6, 5, 4, 3, 2, 88] + node + list(i.to_bytes(4, "big")) + [0, 0, 0, 2, 0, 0, 0, 3]),
+                          ("ports", lambda i: [121, 9, 8, 7, 6, 5, 4, 3, 2, 120] + node + list(i.to_bytes(8, "big")) + [0, 0, 0, 1]),
+                          ("references", lambda i: [121, 9, 8, 7, 6, 5, 4, 3, 2, 90, 0, 2] + node + [0, 0, 0, 1] + list(i.to_bytes(4, "big")) + [0, 0, 0, 7])):
+            body = [131, 108] + list(n_ids.to_bytes(4, "big"))
+            for i in range(n_ids):
+                body += one(i)
+            many_local.append({"why": f"a list of {n_ids} node-local {what}", "bytes": body + [106]})
+    sets = [("grammar", attacks), ("nest", templates), ("compressed", comp), ("trunc", trunc), ("mut", muts), ("map_keys", keyed), ("atom_text", atomtext), ("many_local", many_local)]
     total_crashes = 0
     for tag, inputs in sets:
         obs, crashes = run_inputs(v, inputs, tag)
@@ -189,7 +208,7 @@ def run(tier, seed):
                      "nest templates for 14 nesting positions x depths up to 10^5 (10^6 thorough), compressed sections that lie about their size incl. 64 MB bombs and "
                      "300-level nesting, every truncation offset and seeded mutations/splices of the universe's valid encodings, well-formed maps keyed by every ordered pair of the order universe; each input through 9 entry points on a "
                      "2 MiB thread under a counting allocator; evaluations = input x entry point, distinct = distinct inputs")
-    v.cov["contract"] = "result in {ok, err}; largest single allocation <= 256*(len+inflated)+65536; process survives"
+    v.cov["contract"] = "result in {ok, err}; largest single allocation <= 256*(len+inflated)+65536; all allocations of one decode together <= 600*(len+inflated)+131072; process survives"
     v.assumptions += ["crash and allocation are observed by the OS / a counting global allocator, not by TLC (the spec generates the inputs and states the contract)",
                       "zlib streams from python"]
     return v.finish()
